@@ -15,7 +15,10 @@ tvars2 == <<fam, concat, end, seenErr, inTag>>
 
 Open(f, c) == fam' = f /\ concat' = c /\ end' = 0 /\ seenErr' = FALSE /\ inTag' = FALSE
 
-AllowedEdits == IF fam = "html" THEN {"lower"} ELSE IF fam = "xml" THEN {"ws2sp"} ELSE {}
+\* bytes a token may differ in from the input: HTML lower-cases tag and attribute NAMES (so only in start tags, end tags and
+\* attribute tokens, and there not inside the attribute value); XML turns tab/newline into space inside quoted attribute values
+AllowedEdits(k) == IF fam = "html" THEN (IF k \in {"StartTag", "EndTag", "Attribute", "SVG", "Math"} THEN {"lower"} ELSE {})
+                   ELSE IF fam = "xml" THEN (IF k = "Attribute" THEN {"ws2sp"} ELSE {}) ELSE {}
 OpensTag(k)  == k \in {"StartTag", "StartTagPI"}
 ClosesTag(k) == k \in {"StartTagClose", "StartTagVoid", "StartTagCloseVoid", "StartTagClosePI"}
 
@@ -28,7 +31,7 @@ Tok(t) ==
           /\ t.lo >= end                              \* increasing, non-overlapping
           /\ t.capEq                                  \* appending to it cannot overwrite input bytes
           /\ t.subsIn                                 \* Text / AttrKey / AttrVal are sub-slices of it
-          /\ t.edits \subseteq AllowedEdits           \* bytes altered only as the statement allows
+          /\ t.edits \subseteq AllowedEdits(t.kname)  \* bytes altered only as the statement allows
           /\ (concat /\ ~seenErr => t.lo = end /\ t.relex)     \* nothing skipped; lexing it alone yields it again
           \* uncovered bytes: only whitespace inside a tag.  Judged up to the first error report: what an error report
           \* itself consumed (e.g. '<math>' before an embedded NUL) is not a token, and the statement does not say what
